@@ -375,6 +375,8 @@ pub async fn run(cli: &Cli, report: &mut Report) {
         v.push(Spec { max_packet_length: 450, expiry: 60, timeout: 3, secret: "operator secret H".into(), from_file: true, layered: 2, only_deadline: false });
         // "no patience at all": timeout 0 is a configured value like any other
         v.push(Spec { max_packet_length: 1000, expiry: 60, timeout: 0, secret: "operator secret K".into(), from_file: false, layered: 0, only_deadline: true });
+        // "never": the largest number there is (connection start + timeout does not fit into an Instant)
+        v.push(Spec { max_packet_length: 300, expiry: 60, timeout: u64::MAX, secret: "operator secret L".into(), from_file: false, layered: 0, only_deadline: false });
         // a secret longer than one HMAC block (HMAC hashes longer keys, it does not cut them)
         v.push(Spec { max_packet_length: 450, expiry: 60, timeout: 3, secret: "0123456789abcdef".repeat(7), from_file: false, layered: 0, only_deadline: false });
         // a secret that a typed configuration layer could take for a number: it is text
@@ -452,7 +454,7 @@ pub async fn run(cli: &Cli, report: &mut Report) {
             behaviours.push(Behaviour::StopAfter(k));
         }
         // the long-deadline listener only measures close times in the thorough tier
-        let reps = if cookies_only || frames_only { 0 } else if thorough { 4 } else if spec.timeout > 4 { 0 } else { 1 };
+        let reps = if cookies_only || frames_only || spec.timeout > 1_000 { 0 } else if thorough { 4 } else if spec.timeout > 4 { 0 } else { 1 };
         for _ in 0..reps {
             for b in &behaviours {
                 futures.push(Box::pin(deadline_case(addr, spec.timeout, b.clone(), false)));
